@@ -115,6 +115,11 @@ Section G.
     ("m4_transform_point", grun2 rm4 rp3 (fun m p => gp3 (m4_transform_point O m p)));
     ("m3_concat", grun2 rm3 rm3 (fun a b => gm3 (m3_concat O a b)));
     ("m4_concat", grun2 rm4 rm4 (fun a b => gm4 (m4_concat O a b)));
+    (* Transform<Point2> for Matrix3 and the default concat_self of each impl: same product *)
+    ("m3_concat_2d", grun2 rm3 rm3 (fun a b => gm3 (m3_concat O a b)));
+    ("m3_concat_self", grun2 rm3 rm3 (fun a b => gm3 (m3_concat O a b)));
+    ("m3_concat_self_2d", grun2 rm3 rm3 (fun a b => gm3 (m3_concat O a b)));
+    ("m4_concat_self", grun2 rm4 rm4 (fun a b => gm4 (m4_concat O a b)));
     (* C02 *)
     ("m2_determinant", grun1 rm2 (fun m => gs (m2_determinant O m)));
     ("m3_determinant", grun1 rm3 (fun m => gs (m3_determinant O m)));
